@@ -14,7 +14,7 @@ import Mathlib.Tactic.NormNum
 # C15 — sliced Wasserstein is the averaged 1-D transport cost and a pseudo-metric
 
 All statements are about `PersimVerif.Sliced` (the model of `persim/sliced_wasserstein.py`)
-instantiated at `ℝ`, for an **arbitrary list of directions** `dirs` (the code's `M` float32 vectors
+instantiated at `ℝ`, for an **arbitrary list of directions** `dirs` (the code's `M` float64 vectors
 `(cos θ_i, sin θ_i)` are one such list; `M = dirs.length`) and diagrams of every size with coordinates
 of either sign.  The diagonal projection is the one after fix 1c74424, `dot(dd, p) / s`, with
 `dd = (c, c)`, `s = 2c`, `c·c = 1/2` (i.e. `c = cos π/4 = 1/√2`, `s = √2`); only the theorems that
@@ -28,9 +28,10 @@ transport), `sw_symm`, `sw_perm`, `sw_self_perm` (zero between reorderings), `sw
 `old_sw_counterexample` for the projection `sqrt(x²/2)` of the old code.
 
 `sw_le_two_w1` (for unit directions the value is at most twice the cost of every partial matching,
-hence `≤ 2·W1`).  Nothing is left unproved for the exact-arithmetic model; rounding, the float32 direction
-vectors and the float32 `diag_theta` (projection inexact by ~4e-8) are outside every theorem and are covered
-by the tests of `harness/props/c15.py`.
+hence `≤ 2·W1`).  Nothing is left unproved for the exact-arithmetic model; rounding (the float64 direction
+vectors and `diag_theta` are correct to one rounding since /repo e37e244; the float32 vectors before it made
+the projection inexact by ~4e-8 of the coordinate scale) is outside every theorem and is covered by the tests
+of `harness/props/c15.py`, which include offsets of 1e6 × the feature size.
 -/
 namespace PersimVerif.C15
 open PersimVerif.Sliced PersimVerif.Lemmas PersimVerif.Lemmas.SortedL1 List
